@@ -649,7 +649,7 @@ func (fv *FuncVC) strConst1(v string) Term {
 // Interface tags
 
 func (fv *FuncVC) tagOf(t types.Type) int {
-	k := types.TypeString(t, nil)
+	k := strings.ReplaceAll(types.TypeString(t, nil), "byte", "uint8") // byte and uint8 are one type
 	if n, ok := fv.tags[k]; ok {
 		return n
 	}
